@@ -8,14 +8,15 @@ def check(tree, rep, tier='quick', seed=0):
                        'requested line schedule anything (K12); adding a form schedules exactly its required lines and registers all its lines, '
                        'and does neither when loading inputs only (K13); the dependency handler adds the named form fully and schedules exactly the '
                        'missing line (K13b); the solution is the value store rendered without skipping anything (K14); input forms register their '
-                       'mirror lines as required (K21d).')
-    rep.rule_text = 'obligation = one rule instance (K12 K13 K13b K14 K21d) on one statement or call site of the solver'
+                       'mirror lines as required (K21d); the command line hands exactly the forms named with --form to the solver: no preset, no edits (K26).')
+    rep.rule_text = 'obligation = one rule instance (K12 K13 K13b K14 K21d K26) on one statement or call site of the solver'
     rep.exhaustive = True
     rep.assumptions = ['NOT decided: that on a successful run every scheduled line received a value (needs the tracker algorithm, C06) and which lines the data-dependent demand consists of']
     core = get_core(tree)
     R.k12_schedule_once(core, rep)
     R.k13_add_form(core, rep)
     R.k14_solution_lists_all(core, rep)
+    R.k26_cli_requested_forms(core, rep)
     R.k21_typed_values(core, rep)
     R.k6_single_value_writer(core, rep)
     rep.floor('core rule obligations', sum(v[0] for k, v in rep.rules.items() if k.startswith('K')), 40)
